@@ -160,6 +160,29 @@ fn attack(ctx: &Ctx, b: &Bundle) {
             ctx.count("exact_division_tests", explicit.len() as u64 * 3);
         }
     }
+    {
+        let explicit: Vec<(String, Integer)> = ls.iter().filter(|(p, _)| p.ends_with("/challenge") || p.ends_with("/C")).map(|(p, v)| (format!("explicit:{}", path_class(p)), v.clone())).collect();
+        // the multi-secret PoK challenge is recomputable from public data: H(a_i.. || b || C || t)
+        let mut chs = explicit;
+        if b.kind == "zkpok" {
+            use sha2::{Digest, Sha256};
+            if let Some((_, t)) = ls.iter().find(|(p, _)| p.ends_with("/proof_commited_msgs/t")) {
+                for (_, cval) in &b.public_values {
+                    let mut sstr = String::new();
+                    for (i, _) in &b.hidden {
+                        sstr += &b.base_pairs[*i].1.to_string();
+                    }
+                    sstr += &b.base_pairs[0].2.to_string();
+                    sstr += &cval.to_string();
+                    sstr += &t.to_string();
+                    chs.push(("nispMultiSecrets:".into(), Integer::from_digits(Sha256::digest(sstr.as_bytes()).as_slice(), rug::integer::Order::MsfBe)));
+                }
+            }
+        }
+        for (field, div, what) in sibling_difference_attack(b, &chs) {
+            found.push((field, div, "linear-combination".into(), what));
+        }
+    }
     found.sort();
     found.dedup();
     for (vf, rf, bl, kind) in &found {
@@ -178,7 +201,10 @@ fn run<C: Cs>(ctx: &Ctx, idx: u64, nmax: usize) {
         ctx.inconclusive("C17: key generation panicked (C18's business)");
         return;
     };
-    let bundles = all_bundles::<C>(ctx, &st, &mut r, nmax);
+    let mut bundles = all_bundles::<C>(ctx, &st, &mut r, nmax);
+    let special = special_bundles::<C>(ctx, &st, &mut r, nmax);
+    ctx.count("trusted_or_equal_attribute_proofs", special.len() as u64);
+    bundles.extend(special);
     ctx.count("proofs_attacked", bundles.len() as u64);
     par_for_each(&bundles, 12, |b| attack(ctx, b));
 }
